@@ -35,7 +35,7 @@ func genNextRet(tier string, seed int64, only string) []*Case {
 		reps = 10
 	}
 	for r := 0; r < reps; r++ {
-		for _, scen := range []string{"unicast", "groupby"} {
+		for _, scen := range []string{"unicast", "groupby", "publish", "behavior", "replay"} {
 			if only != "" && only != scen {
 				continue
 			}
@@ -93,6 +93,22 @@ func runNextRet(c *Case) string {
 		}
 		send = func(v int) { dest.NextWithContext(ctx, v) }
 		subscribeLate = func() { group.Subscribe(obs) }
+	case "publish", "behavior", "replay":
+		// the multicast subjects: the consumer is blocked inside the delivery of a value that ANOTHER producer is sending;
+		// a second producer's Next returns only after its own value has been delivered (it waits for the subject)
+		var subj ro.Subject[int]
+		switch c.get("scen", "") {
+		case "publish":
+			subj = ro.NewPublishSubject[int]()
+		case "behavior":
+			subj = ro.NewBehaviorSubject[int](0)
+			atomic.StoreInt32(&seen, -1) // the initial value is replayed at subscription: block on the next one
+		default:
+			subj = ro.NewReplaySubject[int](2)
+		}
+		subj.Subscribe(obs)
+		send = func(v int) { subj.Next(v) }
+		subscribeLate = func() { subj.Next(1) }
 	default:
 		return "res " + c.id + " unsupported"
 	}
